@@ -2,11 +2,27 @@
 
 namespace photospline{
 
+int readNumericKey(fitsfile* fits, int datatype, const char* name, void* value){
+	//CFITSIO's string-to-number conversions compose their error message in a
+	//fixed buffer which a long unparsable value overflows (glibc then aborts
+	//the process), so a value too long to be a number never gets that far.
+	//(The longest representation of a double has 24 characters.)
+	int error = 0;
+	char text[FLEN_VALUE];
+	fits_read_keyword(fits, name, text, NULL, &error);
+	if (error != 0)
+		return (error);
+	if (strlen(text) > 24)
+		return (BAD_INTKEY);
+	fits_read_key(fits, datatype, name, value, NULL, &error);
+	return (error);
+}
+
 std::vector<uint32_t> readOrder(fitsfile* fits, uint32_t ndim){
 	int error = 0;
 	std::vector<uint32_t> order(ndim);
 	//See if there is a single order value
-	fits_read_key(fits, TINT, "ORDER", &order[0], NULL, &error);
+	error = readNumericKey(fits, TINT, "ORDER", &order[0]);
 	if (error != 0) {
 		error = 0;
 		
@@ -14,7 +30,7 @@ std::vector<uint32_t> readOrder(fitsfile* fits, uint32_t ndim){
 		for (uint32_t i = 0; i < ndim; i++) {
 			std::ostringstream ss;
 			ss << "ORDER" << i;
-			fits_read_key(fits, TUINT, ss.str().c_str(), &order[i], NULL, &error);
+			error = readNumericKey(fits, TUINT, ss.str().c_str(), &order[i]);
 			if (error != 0) {
 				throw std::runtime_error("Needs real error message 6");
 			}
